@@ -276,11 +276,8 @@ func contextRefName(contextOfCall protoreflect.Descriptor, refElement protorefle
 		// scopes first: 'b.v1.T' written inside package 'a.b.v1' would resolve
 		// to 'a.b.v1.T', so such names need the leading dot.
 		first, _, _ := strings.Cut(fullName, ".")
-		contextPackage := strings.Split(string(contextOfCall.ParentFile().Package()), ".")
-		for _, part := range contextPackage[1:] {
-			if part == first {
-				return "." + fullName, nil
-			}
+		if packageScopeCaptures(contextOfCall.ParentFile(), first) {
+			return "." + fullName, nil
 		}
 		return fullName, nil
 	}
@@ -304,6 +301,29 @@ func contextRefName(contextOfCall protoreflect.Descriptor, refElement protorefle
 	return strings.Join(refPath, "."), nil
 }
 
+// packageScopeCaptures reports whether the name 'first', looked up from inside
+// the package of file, is found in an enclosing package scope before the root:
+// inside package a.b.v1 the scopes a.b.v1, a.b and a are searched first, and a
+// package known to the file (its own or an imported one) that lives at
+// <scope>.first captures the lookup.
+func packageScopeCaptures(file protoreflect.FileDescriptor, first string) bool {
+	known := []string{string(file.Package())}
+	imports := file.Imports()
+	for i := 0; i < imports.Len(); i++ {
+		known = append(known, string(imports.Get(i).Package()))
+	}
+	contextPackage := strings.Split(string(file.Package()), ".")
+	for depth := len(contextPackage); depth >= 1; depth-- {
+		candidate := strings.Join(contextPackage[:depth], ".") + "." + first
+		for _, pkg := range known {
+			if pkg == candidate || strings.HasPrefix(pkg, candidate+".") {
+				return true
+			}
+		}
+	}
+	return false
+}
+
 // refIsShadowed reports whether the relative name, looked up from the scopes
 // enclosing the context as protobuf does (innermost first), finds a different
 // declaration than the intended one: a nested type of an enclosing message
@@ -313,10 +333,13 @@ func refIsShadowed(contextOfCall protoreflect.Descriptor, refPath []string, full
 		return false
 	}
 	first := protoreflect.Name(refPath[0])
-	for scope := contextOfCall.Parent(); scope != nil; scope = scope.Parent() {
+	for scope := contextOfCall; scope != nil; scope = scope.Parent() {
 		msg, ok := scope.(protoreflect.MessageDescriptor)
 		if !ok {
-			return false
+			if _, isFile := scope.(protoreflect.FileDescriptor); isFile {
+				return false
+			}
+			continue // a field, oneof or method: look at what encloses it
 		}
 		if msg.Messages().ByName(first) != nil || msg.Enums().ByName(first) != nil {
 			return string(msg.FullName())+"."+strings.Join(refPath, ".") != fullName
